@@ -57,6 +57,16 @@ pub fn run_case(case: &Case) -> Result<(), (String, String)> {
         let mut dec = jxl_coding::Decoder::parse(&mut bs, case.spec.num_ctx as u32)
             .map_err(|e| ("parse-error".to_string(), format!("header rejected: {e}")))?;
         dec.begin(&mut bs).map_err(|e| ("begin-error".to_string(), format!("{e}")))?;
+        // the shortcut used by fast paths: a cluster that "always emits one token" must really decode to
+        // that one value (and nothing else) for every symbol of every context mapped to it
+        let cmap: Vec<u8> = dec.cluster_map().to_vec();
+        for (ctx, &cl) in cmap.iter().enumerate() {
+            if let Some(t) = dec.single_token(cl) {
+                if let Some(&(_, v)) = case.expected.iter().find(|e| e.0 as usize == ctx && e.1 != t) {
+                    return Err(("single-token-claim".into(), format!("single_token(cluster {cl}) = Some({t}) but context {ctx} carries the value {v}")));
+                }
+            }
+        }
         for (i, &(ctx, want)) in case.expected.iter().enumerate() {
             let got = dec
                 .read_varint_with_multiplier(&mut bs, ctx, case.mult)
@@ -512,6 +522,36 @@ pub fn family_hybrid(out: &mut Vec<Case>) {
     }
 }
 
+/// Single-token distributions: all values of a stream share one token, at and around the split point
+/// of the hybrid-integer config (a token >= split carries extra bits, so the values still differ).
+pub fn family_single_token(out: &mut Vec<Case>) {
+    for use_prefix in [true, false] {
+        for (se, msb, lsb) in [(4u32, 2u32, 0u32), (4, 0, 0), (4, 1, 1), (0, 0, 0), (2, 1, 0), (5, 0, 2), (8, 3, 1)] {
+            if !use_prefix && (se > 5 || (se == 5 && (msb, lsb) != (0, 0))) {
+                continue;
+            }
+            let cfg = HybridCfg::new(se, msb, lsb);
+            let sp = 1u32 << se;
+            for base in [sp.saturating_sub(1), sp, sp + 1, 2 * sp] {
+                let tok = cfg.encode(base).0;
+                if !use_prefix && tok >= 32 {
+                    continue;
+                }
+                // every value that shares the token of `base` (bounded scan)
+                let vs: Vec<u32> = (base.saturating_sub(64)..base + 200).filter(|&v| cfg.encode(v).0 == tok).take(9).collect();
+                for n in [1usize, 2, vs.len()] {
+                    let seq: Vec<u32> = (0..n.max(1) * 2).map(|i| vs[i % vs.len().min(n.max(1))]).collect();
+                    let syms = vals(0, &seq);
+                    let opts = CodeOpts { use_prefix, log_alpha: 5, cfg: Some(cfg), ..Default::default() };
+                    let spec = CodeSpec::build(1, &syms, &opts);
+                    let expected = expand(&spec, &syms, 0);
+                    out.push(Case { name: format!("single-token-{}-{se}-{msb}-{lsb}-base{base}-n{n}", if use_prefix { "prefix" } else { "ans" }), spec, syms, mult: 0, expected });
+                }
+            }
+        }
+    }
+}
+
 pub fn family_clusters(out: &mut Vec<Case>, quick: bool) {
     // every hole-free cluster map (restricted growth string) for up to 6 contexts
     fn rgs(n: usize, cur: &mut Vec<u8>, outv: &mut Vec<Vec<u8>>) {
@@ -808,6 +848,7 @@ fn all_cases(quick: bool, seed: u64) -> (Vec<Case>, Vec<PermCase>) {
     family_prefix_deep(&mut cases, seed);
     family_ans(&mut cases, quick, seed);
     family_hybrid(&mut cases);
+    family_single_token(&mut cases);
     family_clusters(&mut cases, quick);
     family_lz77(&mut cases, quick, seed);
     (cases, family_perms(seed))
